@@ -57,7 +57,35 @@ def has_minimize(text):
     return prg is not None and any(s.ast_type == ASTType.Minimize for s in prg)
 
 
+SINGLES = [[t] for t in ALL_TRAITS]
+STRUCT = {
+    # non-semantic properties that still need optimize() runs: (check kind, trait configurations)
+    "C03": ("c03", [DEFAULT_TRAITS, ALL_TRAITS, []] + SINGLES),
+    "C04": ("c04", [DEFAULT_TRAITS, ALL_TRAITS, []] + SINGLES),
+    "C07": ("c07", [DEFAULT_TRAITS, ALL_TRAITS]),
+    "C17": ("c17", [DEFAULT_TRAITS]),
+    "C20": ("c20", [["symmetry"], ["minmax_chains"], ["sum_chains"], DEFAULT_TRAITS]),
+}
+
+
 def payloads(prop, inputs):
+    if prop in STRUCT:
+        kind, confs = STRUCT[prop]
+        out = []
+        seen = set()
+        for inp in inputs:
+            text = inp["text"]
+            if try_parse(text) is None:
+                continue
+            i, o = decls(text, "full")
+            for traits in confs:
+                k = (text, tuple(traits))
+                if k in seen:
+                    continue
+                seen.add(k)
+                out.append({"check": kind, "text": text, "traits": list(traits), "input": i, "output": o,
+                            "origin": inp.get("origin", "")})
+        return out
     cfg = SEM[prop]
     out = []
     for inp in inputs:
@@ -82,30 +110,116 @@ def payloads(prop, inputs):
     return res
 
 
-def _work(payload):
-    from . import asp_oracle
-    import signal
+ORACLE_CORPUS = ("corpus:cli", "corpus:normalize_edge", "corpus:traverse", "corpus:oracle", "repo-tests:")
 
-    def handler(signum, frame):
-        raise TimeoutError()
-    signal.signal(signal.SIGALRM, handler)
-    signal.alarm(60)
+
+def oracle_inputs(inputs):
+    """the *fixed* corpus the support oracle runs on (other corpus files only feed the correspondence families)"""
+    return [i for i in inputs if i.get("origin", "").startswith(ORACLE_CORPUS)]
+
+
+def _work(payload):
+    from . import asp_oracle, oracles
     try:
+        kind = payload.get("check", "sem")
+        if kind == "c03":
+            return oracles.c03_check(payload), None
+        if kind == "c04":
+            return oracles.c04_check(payload), None
+        if kind == "c07":
+            return oracles.c07_check(payload), None
+        if kind == "c17":
+            return oracles.c17_check(payload), None
+        if kind == "c20":
+            return oracles.c20_check(payload), None
         rng = random.Random(_h(payload["text"]))
         f = asp_oracle.semantic_check(payload, rng=rng, n_instances=payload.get("n_instances", 6))
-        return payload, f, None
-    except TimeoutError:
-        return payload, None, "timeout"
+        return f, None
     except Exception as e:  # pylint: disable=broad-except
-        return payload, None, "error: " + repr(e)[:200]
-    finally:
-        signal.alarm(0)
+        return None, "error: " + repr(e)[:200]
 
 
-def run_parallel(pls, procs=None):
+def _worker(inq, outq):
+    import logging
+    logging.disable(logging.CRITICAL)
+    while True:
+        item = inq.get()
+        if item is None:
+            return
+        idx, payload = item
+        outq.put(("done", idx, _work(payload)))
+
+
+TASK_TIMEOUT = 40.0
+
+
+def run_parallel(pls, procs=None, task_timeout=TASK_TIMEOUT):
+    """run semantic_check on every payload in worker processes; a worker that exceeds task_timeout on one
+    payload (clingo grounding or sympy can run away inside C code where signals do not reach) is killed and
+    replaced, the payload is reported as 'timeout'"""
+    import queue
+    import time
     procs = procs or min(16, os.cpu_count() or 4)
     if not pls:
         return []
     ctx = multiprocessing.get_context("fork")
-    with ctx.Pool(procs, maxtasksperchild=200) as pool:
-        return list(pool.imap_unordered(_work, pls, chunksize=4))
+    results = {}
+    pending = list(enumerate(pls))
+    pending.reverse()
+    workers = []
+
+    def spawn():
+        inq, outq = ctx.Queue(), ctx.Queue()
+        pr = ctx.Process(target=_worker, args=(inq, outq), daemon=True)
+        pr.start()
+        return {"proc": pr, "inq": inq, "outq": outq, "idx": None, "t0": None}
+
+    def feed(w):
+        if pending:
+            idx, pl = pending.pop()
+            w["idx"], w["t0"] = idx, time.time()
+            w["inq"].put((idx, pl))
+        else:
+            w["idx"] = None
+
+    for _ in range(min(procs, len(pls))):
+        w = spawn()
+        workers.append(w)
+        feed(w)
+    while len(results) < len(pls):
+        progressed = False
+        for k, w in enumerate(workers):
+            if w["idx"] is None:
+                continue
+            try:
+                kind, idx, val = w["outq"].get_nowait()
+                results[idx] = val
+                progressed = True
+                feed(w)
+                continue
+            except queue.Empty:
+                pass
+            if time.time() - w["t0"] > task_timeout:
+                w["proc"].kill()
+                w["proc"].join(1)
+                results[w["idx"]] = (None, "timeout")
+                workers[k] = spawn()
+                feed(workers[k])
+                progressed = True
+            elif not w["proc"].is_alive():
+                results[w["idx"]] = (None, "worker died")
+                workers[k] = spawn()
+                feed(workers[k])
+                progressed = True
+        if not progressed:
+            time.sleep(0.005)
+    for w in workers:
+        try:
+            w["inq"].put(None)
+        except Exception:  # pylint: disable=broad-except
+            pass
+    for w in workers:
+        w["proc"].join(0.5)
+        if w["proc"].is_alive():
+            w["proc"].kill()
+    return [(pls[i], results[i][0], results[i][1]) for i in range(len(pls))]
